@@ -64,6 +64,8 @@ class Ob:
         self.violations = []
         self.known_lines = []
         self.paths = 0
+        self.ch_conditions = 0  # CrossHair conditions analysed / with a definite verdict
+        self.ch_definite = 0
         self.t0 = time.time()
         self._known = [k for k in load_known().get("findings", []) if k.get("property") == pid]
 
@@ -153,6 +155,8 @@ class Ob:
             "violations": self.violations,
             "known_lines": self.known_lines,
             "paths": self.paths,
+            "ch_conditions": self.ch_conditions,
+            "ch_definite": self.ch_definite,
             "queries": dict(smt.STATS.n),
             "solver_s": round(smt.STATS.solver_s, 3),
             "wall_s": round(time.time() - self.t0, 3),
